@@ -119,6 +119,34 @@ def _unescape(s):
     return "".join(out)
 
 
+def apalache(module, init, inv, length, cinit="ConstInit", timeout=900):
+    """`apalache-mc check` on spec/<module>.tla; returns (outcome, wall, tail of the output): outcome is "ok" (no error up to
+    `length`), "error" (a counterexample), anything else is a tool error"""
+    out_dir = workdir("apalache-%s-%s-%s-%d" % (module, init, inv, length))
+    e = dict(os.environ)
+    e.pop("JAVA_TOOL_OPTIONS", None)
+    e["JVM_ARGS"] = "-Xmx4g -Djava.io.tmpdir=%s" % out_dir
+    cmd = ["apalache-mc", "check", "--cinit=" + cinit, "--init=" + init, "--inv=" + inv, "--length=%d" % length,
+           "--out-dir=" + out_dir, "--run-dir=" + os.path.join(out_dir, "run"), module + ".tla"]
+    t0 = time.time()
+    try:
+        p = subprocess.run(cmd, cwd=SPEC, env=e, stdout=subprocess.PIPE, stderr=subprocess.STDOUT, text=True, timeout=timeout)
+    except subprocess.TimeoutExpired:
+        shutil.rmtree(out_dir, ignore_errors=True)
+        raise ToolError("apalache %s %s/%s timed out after %ss" % (module, init, inv, timeout))
+    shutil.rmtree(out_dir, ignore_errors=True)
+    wall = time.time() - t0
+    tail = "\n".join(p.stdout.splitlines()[-12:])
+    if "EXITCODE: OK" in p.stdout and "The outcome is: NoError" in p.stdout:
+        outcome = "ok"
+    elif re.search(r"EXITCODE: ERROR \(12\)", p.stdout) and "The outcome is: Error" in p.stdout:
+        outcome = "error"
+    else:
+        raise ToolError("apalache %s %s/%s: unexpected outcome\n%s" % (module, init, inv, tail))
+    log("[apalache] %s init=%s inv=%s length=%d cinit=%s: %s, %.1fs" % (module, init, inv, length, cinit, outcome, wall))
+    return outcome, wall, tail
+
+
 def tlc(module, cfg, workers=None, env=None, timeout=900, simulate=None, deque=False, xss="1g", xmx="8g",
         coverage=False, tags=("VEC",), keep_out=None, depth=None):
     """Run TLC on spec/<module>.tla with spec/<cfg>.  Returns a Tlc."""
